@@ -86,13 +86,13 @@ CHECKS = {
                      'all pairs of serials 61..; DATEDIF "M"/"Y" = complete months/years for every start day of 7 representative years x every end from 40 days before to 400/1500 (thorough 1100/3700) days after. YEARFRAC bases 0 and 4 = (360 dy + 30 dm + dd)/360 for every day of 5 representative years x 500 (thorough 1500) days either way where neither day of month exceeds 27, with the installed yearfrac package interpreted from source. Thorough: every deciding query re-decided by z3 4.8.12 and cvc5. Boundary inputs and solver models are replayed on the real functions.',
                 note='Trusted: kt/kt.py, kt/models_date.py (datetime/timedelta/relativedelta/rrule(DAILY/MONTHLY/YEARLY) models, days-from-civil formula), z3. Outside: DATEDIF units MD/YM/YD (not in the statement), YEARFRAC basis 1 and bases 0/4 on days 28-31 '
                      '(US/European conventions differ), NOW/TODAY, serial 60; DATE/EDATE/EOMONTH over ALL years at once (z3 answers unknown) - representative years instead.'),
-    'C16': dict(engine='KT+XH', technique='kernel translation of the rounding kernels into z3 reals/ints (one query per function) + CrossHair symbolic execution of every math function with contract stubs for the C library',
-                text='Bounded symbolic model checking: ROUND/ROUNDUP/ROUNDDOWN/TRUNC for EVERY real number in -10^15..10^15 and every digit count -10..10, INT, EVEN, FLOOR (integers), CEILING (integers, 9 significances), MOD (integer dividends, 11 divisors) '
+    'C16': dict(engine='KT+XH', technique='kernel translation of the rounding kernels into z3 reals/ints (one query per function; decimal context precision modelled), one bit-precise QF_FP translation of TRUNC\'s float arithmetic, + CrossHair symbolic execution of every math function with contract stubs for the C library',
+                text='Bounded symbolic model checking: ROUND/ROUNDUP/ROUNDDOWN for EVERY real number in -10^25..10^25 (never an exception), TRUNC in -10^15..10^15, every digit count -10..10, INT, EVEN, FLOOR (integers), CEILING (integers, 9 significances), CEILING/FLOOR of every real in -10^6..10^6 to 7 decimal significances, MOD (integer dividends, 11 divisors) '
                      'equal Excel\'s rounding direction on exact decimal arithmetic; every function of the statement returns a finite number or an Excel error for ALL real arguments when the C library is replaced by its '
                      'documented domain contract (raises / NaN / infinity outside the domain, arbitrary finite value inside), and calls the library function the statement prescribes with the prescribed arguments '
                      '(ATAN2(x,y)=atan2(y,x), LOG(n,b)).',
                 note='Trusted: kt/kt.py, kt/models_math.py (Decimal/round/localcontext/math.trunc|ceil|floor models), library contract table in props/c16.py (P3), CrossHair, z3; floats as exact reals. '
-                     'NOT applicable: agreement with correctly rounded IEEE-754 values to a few ulp (libm/numpy C code) and CEILING/FLOOR/TRUNC on fractional binary floats (binary rounding of products is not modelled).'),
+                     'TRUNC on IEEE doubles: every decimal k/10^n, |k| <= 10^9, n <= 4 (thorough 6) is its own truncation (QF_FP; trivially so once the function computes on Decimal(str(x))). NOT applicable: agreement with correctly rounded IEEE-754 values to a few ulp (libm/numpy C code).'),
     'C20': dict(engine='XH', technique='symbolic execution (CrossHair+z3) of NPV/XNPV/SLN with symbolic real cash flows on a concrete rate/date grid; PMT/PV with numpy_financial as an uninterpreted recording stub',
                 text='Bounded symbolic model checking: NPV for 6 rates x 1..5 cash flows (thorough 9 x 8) and XNPV for 5 rates x 3 date vectors equal sum c_i f_i within 1e-9 relative for ALL real cash flows '
                      '(linearity, rate-0 reduction); SLN * life = cost - salvage for all reals, #DIV/0! at life 0; PMT/PV hand exactly (rate, nper, pv|pmt, fv, timing) to the annuity routine.',
